@@ -39,6 +39,12 @@ def compare_batch(out: Outcome, runners: list[dets.Runner], rtol: float = 1e-9, 
             vals = [abs(h2f(l.split(" ")[2])) for l in r.lines if l.startswith("u") and len(l.split(" ")) > 2]
             fp = dets.full_params(r.cls, r.params)
             floor = min(1.0, max([1e-300, abs(float(fp.get("delta", 0.0))) if r.cls != "ADWIN" else 0.0] + vals))
+        # ADWIN's variance (token 5) is a sum of SQUARED deviations kept by updates and downdates: after a cut what is left of it is the rounding residue of
+        # numbers of size max|x|^2 (and of max|x| for the total, token 4), and any re-association of the same formula changes that residue
+        floors = None
+        if r.cls == "ADWIN":
+            m = max([0.0] + vals)
+            floors = {4: max(floor, m), 5: max(floor * floor, m * m)}
         for k, (impl, modl) in enumerate(zip(r.obs, res[a:b])):
             if impl is None:          # an update after which nothing was read (see Runner.update(observe=False))
                 ok_steps += 1
@@ -51,7 +57,7 @@ def compare_batch(out: Outcome, runners: list[dets.Runner], rtol: float = 1e-9, 
                 out.excluded_near_tie += 1
                 out.count("traces_truncated_at_tie")
                 break
-            same, why = cmp_tokens(impl, toks, rtol, floor)
+            same, why = cmp_tokens(impl, toks, rtol, floor, floors)
             if not same:
                 r.mismatch_at = k
                 out.mismatch(f"{label}{r.cls}: model and implementation differ at operation {k}: {why}",
